@@ -48,6 +48,8 @@ K('kc_caller_capacity_then_layout', 'C', ['C17'], ['capacity_to_buckets', 'Table
   module='pure_k')
 K('h_table_layout_new', 'C', ['C17', 'C02'], ['TableLayout::new'],
   'TableLayout::new::<T>: size_of T, ctrl_align = max(align_of T, WIDTH) for 8 element layouts incl. ZST and align 64')
+K('h_bucket_index', 'C', ['C02', 'C10', 'C09'], ['Bucket::from_base_index', 'Bucket::to_base_index', 'Bucket::next_n', 'Bucket::as_ptr'],
+  'bucket handles: from_base_index / next_n / to_base_index / as_ptr agree on "index relative to base" for sized elements (every index of an 8-slot data part) and for zero-sized ones (every index below 2^62), 5 element layouts')
 K('h_move_next', 'C', ['C17', 'C13'], ['ProbeSeq::move_next'],
   'ProbeSeq::move_next: stride += WIDTH, pos = (pos + stride) & mask, no overflow for any table that fits memory')
 K('h_h1', 'C', ['C17'], ['h1'], 'h1: low bits of the hash')
